@@ -76,10 +76,14 @@ structure Variant where
   fix15c : Bool       -- #15 tests `!notifications_available`
   fix15l : Bool       -- #15 resets the lifetime counter
   fixExpire : Bool
+  /-- NOT in this source tree: the repair of C21 made on another branch (`handle_state_result`, arm
+  `None`: with publishing enabled a collected notification is queued instead of dropped).  Kept as a
+  switch so that the model can follow when the branches are merged. -/
+  keepOnNone : Bool := false
 deriving Repr, DecidableEq
 
-def current : Variant := { fix15c := true, fix15l := true, fixExpire := true }
-def pinned : Variant := { fix15c := false, fix15l := false, fixExpire := false }
+def current : Variant := { fix15c := true, fix15l := true, fixExpire := true, keepOnNone := false }
+def pinned : Variant := { fix15c := false, fix15l := false, fixExpire := false, keepOnNone := false }
 
 /-- state #15 of the table -/
 def cond15 (v : Variant) (s : Subn) (p : Params) : Bool :=
@@ -134,6 +138,37 @@ def updateStateWith (v : Variant) (s : Subn) (timer : Bool) (p : Params) :
     else some (s, 0, .none)
   | .closed => some (s, 0, .none)
 
+/-- One effect of a table row on the subscription, as it is written in the Rust source.  The
+translator `tools/translate/c22_rows.py` regenerates, from `update_state`, the list of effects of
+every row (`Generated/C22Rows.lean`); `Proofs/C22.lean` proves that interpreting them agrees with
+`updateStateWith current`. -/
+inductive Eff where
+  | resetLife | startTimer | resetKa | decKa
+  | setState (st : SState)
+  | setSent (b : Bool)
+deriving Repr, DecidableEq
+
+structure Row where
+  num : Nat
+  action : Action
+  effs : List Eff
+deriving Repr, DecidableEq
+
+def applyEff (s : Subn) : Eff → Option Subn
+  | .resetLife => some (resetLife s)
+  | .startTimer => startTimer s
+  | .resetKa => some (resetKa s)
+  | .decKa => if s.ka = 0 then none else some { s with ka := s.ka - 1 }   -- `u32` `-= 1`
+  | .setState st => some { s with state := st }
+  | .setSent b => some { s with sent := b }
+
+def applyEffs : List Eff → Subn → Option Subn
+  | [], s => some s
+  | e :: es, s =>
+    match applyEff s e with
+    | some s' => applyEffs es s'
+    | none => none
+
 /-- `enqueue_notification`: panics unless the sequence number is the expected one -/
 def enqueue (s : Subn) (k : Msg) (n : Nat) : Option Subn :=
   if n ≠ succ32 s.lastSeq then none
@@ -145,7 +180,7 @@ def handle (v : Variant) (s : Subn) (a : Action) (notif : Option Nat) : Option S
   match a with
   | .none =>
     match notif with
-    | some n => some { s with seq := n }
+    | some n => if v.keepOnNone && s.enabled then enqueue s .data n else some { s with seq := n }
     | none => some s
   | .keepAlive =>
     let s := match notif with
